@@ -13,7 +13,6 @@ import (
 
 type (
 	Locker = sync.Locker
-	Pool   = sync.Pool
 	Map    = sync.Map
 	Cond   = sync.Cond
 )
@@ -358,4 +357,62 @@ func (wg *WaitGroup) Wait() {
 		t.blocked = ""
 	}
 	YieldMust(site + " (done)")
+}
+
+// Pool stands in for sync.Pool in instrumented code. A sync.Pool is process-global state that
+// outlives a simulated run and is emptied by the garbage collector at arbitrary moments: with
+// it one seed would not be one execution. This one is a plain LIFO free list that belongs to
+// the run (it is emptied when another scheduler is installed), so "an object put back by an
+// earlier connection of this process is handed out again" happens - deterministically -
+// within a run and never between runs.
+type Pool struct {
+	New func() any
+
+	mu    sync.Mutex
+	owner *Sched
+	free  []any
+	real  sync.Pool
+}
+
+func (p *Pool) Get() any {
+	s := cur.Load()
+	if s == nil {
+		if v := p.real.Get(); v != nil {
+			return v
+		}
+		if p.New != nil {
+			return p.New()
+		}
+		return nil
+	}
+	p.mu.Lock()
+	if p.owner != s {
+		p.owner, p.free = s, nil
+	}
+	var v any
+	if n := len(p.free); n > 0 {
+		v, p.free = p.free[n-1], p.free[:n-1]
+	}
+	p.mu.Unlock()
+	if v == nil && p.New != nil {
+		v = p.New()
+	}
+	return v
+}
+
+func (p *Pool) Put(v any) {
+	if v == nil {
+		return
+	}
+	s := cur.Load()
+	if s == nil {
+		p.real.Put(v)
+		return
+	}
+	p.mu.Lock()
+	if p.owner != s {
+		p.owner, p.free = s, nil
+	}
+	p.free = append(p.free, v)
+	p.mu.Unlock()
 }
